@@ -355,6 +355,10 @@ func ConvertToJSON(val lua.LValue) string {
 		}
 		return "false"
 	case lua.LTNumber:
+		if f := float64(val.(lua.LNumber)); math.IsNaN(f) || math.IsInf(f, 0) {
+			// JSON has no literal for these; quote them like field values do
+			return jsonString(val.String())
+		}
 		return val.String()
 	case lua.LTString:
 		if b, err := json.Marshal(val.String()); err != nil {
@@ -378,14 +382,18 @@ func ConvertToJSON(val lua.LValue) string {
 			start = `{`
 			end = `}`
 			cb = func(lk lua.LValue, lv lua.LValue) {
-				values = append(
-					values, ConvertToJSON(lk)+`:`+ConvertToJSON(lv))
+				// the keys of a JSON object are strings
+				key := ConvertToJSON(lk)
+				if lk.Type() != lua.LTString {
+					key = jsonString(lk.String())
+				}
+				values = append(values, key+`:`+ConvertToJSON(lv))
 			}
 		}
 		tbl.ForEach(cb)
 		return start + strings.Join(values, `,`) + end
 	}
-	return "Unsupported lua type: " + val.Type().String()
+	return jsonString("Unsupported lua type: " + val.Type().String())
 }
 
 // The name of the running eval command (eval, evalro, evalna, ...) selects
